@@ -120,7 +120,7 @@ def run(facts, res):
                 for y in cfg.block_succs(x):
                     if y not in loop and b.blocks[y].term.kind != "unreachable":
                         lits = [l for l in lits_of(b, y, facts)]
-                        if not any((l.kind == "call" and callee_name(l.term) == "is_empty" and l.truth is True) or
+                        if not any((l.kind == "call" and callee_name(l.term) == "is_empty" and l.truth is True and l.term[2] and on_worklist(l.term[2][0])) or
                                    (l.kind == "variant" and l.variants == {"None"} and peel(l.term)[0] == "call" and peel(l.term)[3] in pops) for l in lits):
                             other_exits.append((x, y))
     res.instance("T1", "reload_until: work-list loop runs while !to_apply.is_empty() (%s), no other exit (%d)" % (cond_ok, len(other_exits)), b.loc())
